@@ -170,7 +170,17 @@ def run(ctx):
                                   % ("encrypted-transfer/sec-to-pub"))
                 continue
         ctx.violation({"case": r}, "encrypted-transfer oracle failed: %s" % json.dumps(r)[:300])
+    # crafted-prover attacks (a proof no honest prover produces must be rejected as well)
+    rc, out = c.run_bin(binp, ["attack", ctx.seed, 0], timeout=1200)
+    atk = [json.loads(l) for l in out.splitlines() if l.startswith("{")]
+    if len(atk) < 2:
+        ctx.violation({"layer": "attack harness", "output": out[-1500:]}, "attack harness failed", no_input=True)
+    for a in atk:
+        res.append(a)
+        if not a["ok"]:
+            ctx.violation({"case": a}, "forged transfer accepted: %s" % json.dumps(a)[:300])
     ctx.cov["evaluations"] += len(res)
+    ctx.notes["attacks"] = atk
     ctx.notes["oracle_distribution"] = kinds
     ctx.cov["samples"] += [json.dumps(x)[:400] for x in res[:2]]
     ctx.cov["distinct_nontrivial"] = len(nontrivial)
